@@ -15,3 +15,5 @@ for ID in "$@"; do
   RES="$RES $ID:$RC"
 done
 echo "checks:$RES" | tee -a "$DEST/result.txt"
+# evidence/ holds the records of clean-tree runs only: drop what the runs against a modified tree wrote
+git -C /verif checkout -- evidence/ 2>/dev/null
